@@ -21,6 +21,40 @@ def scalar_value():
     return Agg([Agg(words)])        # FrRepr([u64; 4])
 
 
+def scalar_value_case(top):
+    """The scalar with leading one at bit `top` (bits above are 0, bits below symbolic); top = -1: zero."""
+    words = []
+    for w in range(4):
+        ent = []
+        for i in range(64):
+            n = 64 * w + i
+            ent.append(0 if n > top else (1 if n == top else BitVal(n)))
+        words.append(BV(ent))
+    return Agg([Agg(words)])
+
+
+def expected_case(top, point='P'):
+    t = {'%s*b%d' % (point, n): 1 << n for n in range(max(top, 0))}
+    if top >= 0:
+        t[point] = 1 << top
+    return Lin(t)
+
+
+def run_by_leading_one(fx, path, mkargs, result_of, inline=None):
+    """Fallback for loops whose trip count depends on the scalar (e.g. `skip_while(|b| !b)`): one run per
+    position of the leading one (257 cases, which partition all 256-bit scalars).  Returns (sites, None) when
+    every case yields its expected value, else (sites, (top, got, want))."""
+    sites = 0
+    for top in range(-1, NBITS):
+        I, res = run(fx, path, mkargs(scalar_value_case(top)), inline=inline)
+        sites += I.call_sites
+        got = result_of(res)
+        want = expected_case(top)
+        if not (isinstance(got, Lin) and got == want):
+            return sites, (top, got, want)
+    return sites, None
+
+
 def expected(point='P', nbits=NBITS):
     return Lin({'%s*b%d' % (point, n): 1 << n for n in range(nbits)})
 
@@ -29,10 +63,21 @@ class RevIt:
     def __init__(self, lo, hi):
         self.lo, self.hi = lo, hi
 
+    def iter_next(self, I, where):
+        if self.hi > self.lo:
+            return Opt('some', Int(self.hi - 1)), RevIt(self.lo, self.hi - 1)
+        return Opt('none', TOP), self
+
 
 class BitSeq:
     def __init__(self, entries, pos=0):
         self.entries, self.pos = entries, pos
+
+    def iter_next(self, I, where):
+        if self.pos < len(self.entries):
+            e = self.entries[self.pos]
+            return Opt('some', Int(e, 1) if e in (0, 1) else e), BitSeq(self.entries, self.pos + 1)
+        return Opt('none', TOP), self
 
 
 def transfer(I, fr, t, c, pth):
@@ -288,7 +333,14 @@ def rule_projective_mul(fx, rep, groups):
             rep.check(ok, 'BITLIN', '%s:projective-mul_assign' % g, 'self becomes sum_n 2^n b_n P for every 256-bit scalar (leading-zero skipping included)',
                       'result is not [k]P: %s' % describe(out, want), fx.fn(p)['span'], construct=p)
         except (exp.NotDerivable, exp.Budget) as e:
-            rep.fail('BITLIN', '%s:projective-mul_assign' % g, 'not derivable: %s at %s' % (e, getattr(e, 'where', None)), fx.fn(p)['span'])
+            try:
+                sites, bad = run_by_leading_one(fx, p, lambda sv: [('byref', P), sv], lambda res: res[0][2].get(1) if len(res) == 1 else None)
+                rep.sites(sites)
+                n += 1
+                rep.check(bad is None, 'BITLIN', '%s:projective-mul_assign' % g, 'self becomes sum_n 2^n b_n P for every 256-bit scalar (decided per position of the leading one: 257 cases)',
+                          'result is not [k]P when the leading one is bit %s: %s' % (bad[0], describe(bad[1], bad[2])) if bad else '', fx.fn(p)['span'], construct=p)
+            except (exp.NotDerivable, exp.Budget) as e2:
+                rep.fail('BITLIN', '%s:projective-mul_assign' % g, 'not derivable: %s at %s' % (e2, getattr(e2, 'where', None)), fx.fn(p)['span'])
     rep.floor('BITLIN', 'projective-mul-paths', n, 2)
 
 
